@@ -205,20 +205,21 @@ func (f *FibStrategyHashTable) pruneTables(entry *baseFibStrategyEntry) {
 		}
 
 		// If virtual name is present in table
-		// AND the real name being deleted was the longest associated with the virtual name
 		// AND this real name was deleted from the real table
-		if inVirtTable && len(name) == virtEntry.md && pruned {
-			_, inVirtNameTable = f.virtTableNames[virtNameHash]
+		if inVirtTable && pruned {
+			names, inVirtNameTable := f.virtTableNames[virtNameHash]
 			if !inVirtNameTable {
-				// Delete the entry entirely from the virtual table too
-				// if it was removed it from the virtual name table
+				// No real name is associated with this virtual name any more:
+				// delete the entry entirely from the virtual table too
 				delete(f.virtTable, virtNameHash)
-			} else {
-				// Update with length of next longest real prefix associated
-				// with this virtual prefix
-				for _, l := range f.virtTableNames[virtNameHash] {
-					virtEntry.md = max(virtEntry.md, l)
+			} else if len(name) == virtEntry.md {
+				// The real name being deleted was the longest associated with the
+				// virtual name: update with length of next longest real prefix
+				md := 0
+				for _, l := range names {
+					md = max(md, l)
 				}
+				virtEntry.md = md
 			}
 		}
 	}
